@@ -368,6 +368,11 @@ func (g *Gen) genC06() {
 			clen = r.N(bodyAvail + 1)
 		case 3:
 			clen = bodyAvail + 1 + r.N(50)
+		case 4: // far larger than what is there: congruent to an available length modulo 2^16, up to the 2^24 limit
+			clen = []int{1, 1, 2, 3, 16, 255}[r.N(6)]*65536 + r.N(bodyAvail+1)
+			if r.P(10) {
+				clen = 16777216
+			}
 		}
 		text := ms.Text
 		hdrEnd := ms.HdrEnd
@@ -385,7 +390,7 @@ func (g *Gen) genC06() {
 	}
 	for i := 0; i < n; i++ {
 		avail := []int{0, 0, 1, 2, 7, 30, 200}[r.N(7)]
-		m1 := mk(avail, r.N(4))
+		m1 := mk(avail, r.N(5))
 		if m1.text == "" {
 			continue
 		}
